@@ -18,7 +18,8 @@ RULE = ("chunks (C,Z,Y,X) with C in 1..3 and axes 1..9 (quick) / 1..14 plus 64^3
         "values from {0,1,2^32-1,2^32,2^53+1,2^64-1,...}; hand-built edge cases first; the caller's array is "
         "presented (stratified) as native / big-endian / narrower unsigned type / Fortran order / strided view / "
         "read-only and must be left unchanged; sessions: one encoder object encodes and decodes several chunks "
-        "(same shape, another shape, same shape again) and every earlier result is re-checked afterwards. "
+        "(same shape, another shape, same shape again) and every earlier result is re-checked afterwards; one "
+        "large chunk per run (channel > 2^20 words, table offsets using bits 20..23) judged by the oracles only. "
         "non-trivial = at least 2 blocks in a channel and a block with >= 2 labels")
 
 POOL_SIZES = [1, 2, 3, 4, 5, 16, 17, 256, 257, 300]
@@ -82,6 +83,33 @@ def canon_arr(a):
     import numpy as np
     a = np.asarray(a)
     return [list(a.shape), a.dtype.name, np.ascontiguousarray(a).astype(a.dtype.newbyteorder("<")).tobytes()]
+
+
+def spec_voxel_py(buf, dt, shape_xyz, blk, c, z, y, x):
+    """One voxel, read as the format document says (independent of the package and of the model)."""
+    X, Y, Z = shape_xyz
+    bx, by, bz = blk
+    gx, gy = -(-X // bx), -(-Y // by)
+
+    def u32(off):
+        if off < 0 or off + 4 > len(buf):
+            raise ValueError(f"read of 4 bytes at {off} outside the file ({len(buf)})")
+        return int.from_bytes(buf[off:off + 4], "little")
+    base = 4 * u32(4 * c)
+    h = base + 8 * ((x // bx) + gx * ((y // by) + gy * (z // bz)))
+    w0, w1 = u32(h), u32(h + 4)
+    table, bits = w0 & 0xFFFFFF, w0 >> 24
+    if bits not in (0, 1, 2, 4, 8, 16, 32):
+        raise ValueError(f"bit width {bits}")
+    p = (x % bx) + bx * ((y % by) + by * (z % bz))
+    idx = 0
+    if bits:
+        word = u32(base + 4 * (w1 + (p * bits) // 32))
+        idx = (word >> ((p * bits) % 32)) & ((1 << bits) - 1)
+    if dt == "uint64":
+        t = base + 4 * table + 8 * idx
+        return u32(t) | (u32(t + 4) << 32)
+    return u32(base + 4 * table + 4 * idx)
 
 
 def spec_decode_py(buf, dt, C, shape_xyz, blk):
@@ -458,12 +486,82 @@ def run_sessions(R, quick):
                             "encoder object", dict(case0, index=i), {"now": _short(canon_arr(d))})
 
 
+def run_large(R):
+    """One chunk per run whose encoded channel exceeds 2^20 words (4 MiB), so that lookup-table
+    offsets use bits 20..23 of the 24-bit field and value offsets exceed 2^20.  The extracted model
+    is quadratic in the chunk size, so this case is judged by the oracles only: the package decoder
+    must return the input, and the independent Python format reader must read the right label at
+    sampled voxels (all of the first and last blocks, the blocks around the 2^20-word boundary, and
+    random ones)."""
+    import numpy as np
+    rng = R.rng
+    dt = rng.choice(["uint64", "uint64", "uint32"])
+    blk = [8, 8, 8]
+    shape = [128 if dt == "uint64" else 192, 64, 64]
+    shape = [shape[i] for i in rng.sample(range(3), 3)]
+    X, Y, Z = shape
+    n = X * Y * Z
+    mult, add = (2654435761, 2 ** 53 + 1) if dt == "uint64" else (2654435761, 7)
+    a = ((np.arange(n, dtype=np.uint64) * np.uint64(mult) + np.uint64(add)) % np.uint64(2 ** dt_bits(dt) - 1))
+    a = a.astype(np.dtype(dt).newbyteorder("<")).reshape(1, Z, Y, X)
+    a[0, :8, :, :] = a[0, 0, 0, 0]                # one layer of 0-bit blocks sharing a table as well
+    enc = make_encoder(dt, 1, blk)
+    case = {"dt": dt, "C": 1, "shape": shape, "blk": blk, "note": "large chunk: a[i] = (i*%d+%d) mod (2^%d-1), "
+            "first 8 z-planes constant" % (mult, add, dt_bits(dt))}
+    R.case(case, nontrivial=True)
+    R.count("large_chunk")
+    ib = outcome_of(lambda: bytes(enc.encode(a)))
+    if ib[0] != "ok":
+        R.violation("the encoder raised on a valid chunk", case, {"impl": ib})
+        return
+    buf = ib[1]
+    gx, gy, gz = -(-X // 8), -(-Y // 8), -(-Z // 8)
+    base = 4 * struct.unpack_from("<I", buf, 0)[0]
+    offs = [struct.unpack_from("<II", buf, base + 8 * k) for k in range(gx * gy * gz)]
+    top = max(w0 & 0xFFFFFF for w0, _w1 in offs)
+    R.extra["large_chunk_max_table_offset_words"] = top
+    R.count("large_chunk:table_offset>=2^20" if top >= 2 ** 20 else "large_chunk:table_offset<2^20")
+    if top < 2 ** 20:
+        R.notes.append("large chunk did not reach a table offset of 2^20 words")
+    if len(buf) % 4:
+        R.violation("encoded length is not a multiple of 4", case, {"len": len(buf)})
+    dec = outcome_of(lambda: enc.decode(buf, shape))
+    if dec[0] != "ok" or dec[1].shape != a.shape or dec[1].dtype != a.dtype or not np.array_equal(dec[1], a):
+        bad = None
+        if dec[0] == "ok" and dec[1].shape == a.shape:
+            bad = [int(v) for v in np.argwhere(dec[1] != a)[0]]
+        R.violation("the package's decoder does not recover a chunk whose channel exceeds 2^20 words", case,
+                    {"impl": dec[0] if dec[0] != "ok" else "ok", "first_wrong_voxel_czyx": bad,
+                     "max_table_offset_words": top})
+    # sampled voxels through the independent format reader
+    blocks = {0, len(offs) - 1}
+    over = [k for k, (w0, _w1) in enumerate(offs) if (w0 & 0xFFFFFF) >= 2 ** 20]
+    blocks.update(over[:2] + over[-2:])
+    blocks.update(rng.randrange(len(offs)) for _ in range(6))
+    vox = []
+    for k in blocks:
+        xb, yb, zb = k % gx, (k // gx) % gy, k // (gx * gy)
+        vox += [(zb * 8 + dz, yb * 8 + dy, xb * 8 + dx) for dz in range(8) for dy in range(8) for dx in range(8)
+                if zb * 8 + dz < Z and yb * 8 + dy < Y and xb * 8 + dx < X]
+    vox += [(rng.randrange(Z), rng.randrange(Y), rng.randrange(X)) for _ in range(1500)]
+    for (z, y, x) in vox:
+        try:
+            v = spec_voxel_py(buf, dt, shape, blk, 0, z, y, x)
+        except ValueError as exc:
+            v = str(exc)
+        if v != int(a[0, z, y, x]):
+            R.violation("independent Python format reader does not find the label in a large encoded chunk", case,
+                        {"voxel_zyx": [z, y, x], "read": v, "want": int(a[0, z, y, x])})
+            break
+
+
 def run(R):
     R.rule = RULE
     rng = R.rng
     quick = R.tier == "quick"
     check_cases(R, edge_cases(), kind="edge")
     run_sessions(R, quick)
+    run_large(R)
     # exhaustive tiny shapes x blocks with two labels
     tiny = []
     for shape in itertools.product([1, 2, 3], repeat=3):
@@ -511,6 +609,21 @@ def run(R):
                    "unsafe casts (TypeError) are outside the property and not exercised")
 
 
+def _replay_large():
+    """Re-run the deterministic large-chunk cases (every label type / axis order); True iff one fails."""
+    import random
+    viol = []
+    R2 = type("Tmp", (), {})()
+    R2.case = lambda *a, **k: None
+    R2.count = lambda *a, **k: None
+    R2.extra, R2.notes = {}, []
+    R2.violation = lambda *a, **k: viol.append(a)
+    for seed in range(4):
+        R2.rng = random.Random(seed)
+        run_large(R2)
+    return bool(viol)
+
+
 def _replay_session(case, datas):
     """Same encoder object, the recorded chunks and decode order: True iff a kept result is wrong."""
     import numpy as np
@@ -539,8 +652,13 @@ def replay(R, payload):
     """Re-run the recorded case on the current tree; True iff the oracle still rejects."""
     import numpy as np
     case = payload.get("case") or (payload.get("disagreements") or [{}])[0].get("case", {})
-    if "data" not in case:
+    if str(case.get("note", "")).startswith("large chunk"):
+        case = dict(case)
+        case.pop("data", None)
+    elif "data" not in case:
         return True
+    if "data" not in case:
+        return _replay_large()
     data = case["data"]
 
     def unhex(d):
